@@ -192,8 +192,17 @@ def main():
             raise TieBroken("weight arm for OpCode::" + v)
     # outer driver: saturating sum
     ow = " ".join(fn_body(opcode, r"pub\s+fn\s+opcodes_weight\s*\(", "fn opcodes_weight").split())
-    if "sum = sum.saturating_add(delta_sum);" not in ow or "opcodes_car_weight(rest)" not in ow:
-        raise TieBroken("opcodes_weight is no longer a saturating sum of car weights")
+    # the weigher since the `fix:` for F2: one right-to-left pass per distinct end; the three expressions that carry the
+    # arithmetic (a plain instruction's own weight, a loop's weight from its body, the saturating accumulation) must be
+    # exactly these, with the same loop constant as the car-weight arm
+    need_in = ["opcodes_car_weight(&opcodes[j..j + 1]).0",
+               "suffix.saturating_mul(*iters as u128).saturating_add(%d)" % sp["Loop"][0],
+               "suffix = suffix.saturating_add(car);",
+               "(j + 1 + body_len as usize).min(n)",
+               "ends.sort_unstable();"]
+    for frag in need_in:
+        if frag not in ow:
+            raise TieBroken("opcodes_weight no longer has the shape the model mirrors (missing %r)" % frag)
 
     # ---- TIP heights ----------------------------------------------------------
     tips_src = strip_comments(read("src/tip_heights.rs"))
